@@ -247,7 +247,7 @@ def riscv_load_snapshot(sim):
     return s
 
 
-def h_reload_riscv(e, ia, ib, mode, cachecfg):
+def h_reload_riscv(e, ia, ib, mode, cachecfg, observe=False):
     from symx.state import cache_options
     from architecture_simulator.simulation.riscv_simulation import RiscvSimulation
 
@@ -260,17 +260,54 @@ def h_reload_riscv(e, ia, ib, mode, cachecfg):
         return RiscvSimulation(mode=mode, **kw)
 
     A, B = RISCV_TEXTS[ia], RISCV_TEXTS[ib]
+
+    def look(s):
+        """what a front end does between loads on a simulation that has not started: queries,
+        and step()/run() when there is nothing to execute (both are no-ops then)"""
+        if not observe:
+            return
+        s.is_done()
+        s.has_instructions()
+        s.get_register_entries()
+        s.get_data_memory_entries()
+        s.get_instruction_memory_entries()
+        s.get_performance_metrics()
+        if not s.has_instructions():
+            s.step()
+            s.run()
+
     s1 = mk()
+    look(s1)
     x0 = _load(s1, A)
+    look(s1)
     x1 = _load(s1, B)
     s2 = mk()
     x2 = _load(s2, B)
     e.observe("exceptions", [x0, x1, x2])
+    e.claim("not-started", not s1.has_started)
     e.claim("same-load-result", x1 == x2, {"reloaded": x1, "fresh": x2})
     S1, S2 = riscv_load_snapshot(s1), riscv_load_snapshot(s2)
     for k in S1:
         e.claim("reload==fresh:" + k, S1[k] == S2[k], {"reloaded": repr(S1[k])[:300], "fresh": repr(S2[k])[:300]})
     e.claim("canary:reload", S1["instructions"] == [(0, "x", "y")])
+    # ... and both behave the same from there
+    from architecture_simulator.simulation.runtime_errors import InstructionExecutionException
+
+    def finish(s):
+        n = 0
+        try:
+            while not s.is_done() and n < 400:
+                s.step()
+                n += 1
+        except InstructionExecutionException as ex:
+            return ("fault", n, repr(ex)[:120])
+        return ("done" if s.is_done() else "running", n, None)
+
+    r1, r2 = finish(s1), finish(s2)
+    e.claim("run-after-reload==run-after-fresh-load", r1 == r2, {"reloaded": r1, "fresh": r2})
+    F1, F2 = riscv_load_snapshot(s1), riscv_load_snapshot(s2)
+    for k in F1:
+        e.claim("final-after-reload==fresh:" + k, F1[k] == F2[k], {"reloaded": repr(F1[k])[:300], "fresh": repr(F2[k])[:300]})
 
 
 def h_reload_toy(e, ia, ib):
@@ -362,7 +399,8 @@ def jobs(tier, seed):
         for ib in range(len(RISCV_TEXTS)):
             for ci, cfg in enumerate(cfgs):
                 mode = MODES[(ia + ib + ci) % 2]
-                out.append({"label": "reload-%d-%d-c%d" % (ia, ib, ci), "harness": "reload_riscv", "args": {"ia": ia, "ib": ib, "mode": mode, "cachecfg": cfg}, "cost": 1})
+                observe = (ia + 2 * ib + ci) % 2 == 0
+                out.append({"label": "reload-%d-%d-c%d%s" % (ia, ib, ci, "-obs" if observe else ""), "harness": "reload_riscv", "args": {"ia": ia, "ib": ib, "mode": mode, "cachecfg": cfg, "observe": observe}, "cost": 1})
     for ia in range(len(TOY_TEXTS)):
         for ib in range(len(TOY_TEXTS)):
             out.append({"label": "toyreload-%d-%d" % (ia, ib), "harness": "reload_toy", "args": {"ia": ia, "ib": ib}, "cost": 1})
